@@ -18,7 +18,7 @@ CONSTANT MaxN
 KindPool ==
   { [n |-> "nil", v |-> Nil], [n |-> "false", v |-> B(FALSE)], [n |-> "true", v |-> B(TRUE)],
     [n |-> "empty_string", v |-> S(<<>>)], [n |-> "string", v |-> S(<<"a">>)], [n |-> "string_false", v |-> S(<<"f","a","l","s","e">>)],
-    [n |-> "empty_html", v |-> H(<<>>)], [n |-> "html", v |-> H(<<"b">>)],
+    [n |-> "empty_html", v |-> H(<<>>)], [n |-> "html", v |-> H(<<"b">>)], [n |-> "html_blank", v |-> H(<<" ", "NL">>)], [n |-> "string_blank", v |-> S(<<" ">>)],
     [n |-> "zero", v |-> I(0)], [n |-> "one", v |-> I(1)], [n |-> "float_zero", v |-> F(0, 0)],
     [n |-> "empty_array", v |-> A(<<>>)], [n |-> "array", v |-> A(<<I(0)>>)], [n |-> "empty_hash", v |-> M(EmptyScope)] }
   \cup { [n |-> k, v |-> Opq(k)] : k \in OpaqueKinds }
@@ -115,6 +115,17 @@ Init ==
         LET prog == Place(pl, IfChain(Id("zz"), Body("U", FALSE), [i \in 1..n |-> [c |-> Cond(i, tv[i]), b |-> Body(Markers[i], FALSE)]], Body("Z", FALSE), hasel)) IN
         cs = [fam |-> "unkchain", name |-> pl, ctx |-> "chain", prog |-> prog, data |-> EmptyScope, tv |-> tv, hasel |-> hasel,
               res |-> Run(prog, WithHelpers(EmptyScope), EmptyScope, ""), want |-> <<>>]
+  \* a name tested while it is unknown, then bound (loop variable, parameter, let, assignment) and tested again in the same render
+  \/ \E how \in {"loop", "param", "let", "helperdata"} :
+        LET T2 == Emit(IfElse(Id("it"), T, Fv))
+            prog == <<T2, Text(<<"|">>)>> \o
+                    (CASE how = "loop"  -> <<Emit(For("", "it", Arr(<<Str(<<"a">>), Str(<<>>)>>), <<T2, Emit(Not(Id("it")))>>))>>
+                       [] how = "param" -> <<Let("f", FnLit(<<"it">>, <<T2>>)), Emit(Call("f", <<Str(<<"x">>)>>)), Emit(Call("f", <<Bool(FALSE)>>))>>
+                       [] how = "let"   -> <<Let("it", IntL(0)), T2>>
+                       [] how = "helperdata" -> <<Emit(CallB("blkown", <<Hash(<<"it">>, <<Str(<<"d">>)>>)>>, <<T2>>))>>)
+                    \o <<Text(<<"|">>), T2>> IN
+        cs = [fam |-> "unkthenbound", name |-> how, ctx |-> "if", prog |-> prog, data |-> EmptyScope, tv |-> <<>>, hasel |-> TRUE,
+              res |-> Run(prog, WithHelpers(EmptyScope), EmptyScope, ""), want |-> <<>>]
   \/ \E n \in 1..MaxN : \E tv \in [1..n -> BOOLEAN], hasel \in BOOLEAN :
         LET prog == Place("top", ChainIfB(tv, hasel, TRUE)) IN
         cs = [fam |-> "failchain", name |-> "top", ctx |-> "chain", prog |-> prog, data |-> EmptyScope, tv |-> tv, hasel |-> hasel,
@@ -167,7 +178,7 @@ FailChainTheorem ==
     /\ taken => cs.res.log[nc + 1].f = "fail"
 
 \* nested chains: the reference semantics renders them (the expectation is its output and probe sequence)
-NestedTheorem == cs.fam = "nested" => cs.res.k = "out"
+NestedTheorem == cs.fam \in {"nested", "unkthenbound"} => cs.res.k = "out"
 
 Expect(r) == CASE r.k = "out" -> [k |-> "out", pieces |-> r.pieces, log |-> r.log]
                [] r.k = "err" -> [k |-> "err", w |-> r.w, log |-> r.log]
